@@ -90,6 +90,7 @@ structure DState where
   handles : List (Nat × Handle) := []
   ref : RefFs.State := RefFs.State.init
   refHandles : List (Nat × RefHandle) := []
+  snapshot : List Row := []
 deriving Inhabited
 
 def kvs (fields : List String) : List (String × String) :=
@@ -264,6 +265,21 @@ def step (s : DState) (line : String) : DState × List String :=
   | "cfg" :: fields => ({ s with fs := parseCfg fields }, [])
   | "hist" :: id :: _ => ({ (default : DState) with fs := s.fs }, ["hist\t" ++ id])
   | "env" :: fields => ({ s with env := parseEnv fields }, [])
+  | "call" :: "@snapshot" :: _ =>
+    let s' := { s with snapshot := s.w.idx.rows }
+    (s', ["call\t@snapshot", "res\tok"] ++ observe s.w s' ++ ["refres\t-"] ++ encTree s'.ref ++ ["end"])
+  | "call" :: "@reopen" :: args =>
+    -- a fresh process over the same drive: new lock state, no handles, the persister re-opens
+    let mode := (args.find? (·.startsWith "index=")).map (fun a => (a.drop 6).toString)
+    let rows := match mode with
+      | some "drop" => []
+      | some "snap" => s.snapshot
+      | _ => s.w.idx.rows
+    let idx0 : Idx := { rows := rows }
+    let idx := (idx0.getRootPath).1      -- `MetadataPersister.Open` caches the root when there is one
+    let fs := { s.fs with readOnly := if args.contains "ro=1" then true else if args.contains "ro=0" then false else s.fs.readOnly }
+    let s' := { s with fs := fs, w := { s.w with idx := idx, stuck := false }, handles := [], refHandles := [] }
+    (s', ["call\t@reopen\t" ++ "\t".intercalate args, "res\tok"] ++ observe s.w s' ++ ["refres\t-"] ++ encTree s'.ref ++ ["end"])
   | "call" :: method :: args =>
     let before := s.w
     let trigs := match parseCall method args with
